@@ -703,7 +703,13 @@ func (p *Process) ceaseFlowMonitor(tracer tracing.ITracer) func(ctx context.Cont
 			}
 
 			select {
-			case trace := <-traces:
+			case trace, ok := <-traces:
+				if !ok {
+					// the tracer has terminated (its context is done and the last
+					// sender has gone): a closed channel is ready for ever, this
+					// loop would spin on it
+					return
+				}
 				trace = tracing.Unwrap(trace)
 				switch t := trace.(type) {
 				case TerminationTrace:
